@@ -48,6 +48,32 @@ def _norm(decoded):
     return [(int(t), bytes(v)) for t, v in decoded]
 
 
+def _alias_check(TLV, TlvParseException, data, label, expected=None):
+    """The decoders are functions of the bytes they are given: the same answer for bytes and bytearray arguments, the caller's buffer
+    untouched, and the same answer when the same buffer is decoded again (a message is decoded more than once on retries)."""
+    out = []
+    kw = {} if expected is None else {"expected": list(expected)}
+
+    def run(fn, arg):
+        try:
+            return ("ok", _norm(fn(arg, **kw)))
+        except TlvParseException:
+            return ("parse-error", None)
+        except Exception as e:  # noqa: BLE001
+            return (type(e).__name__, None)
+
+    base = run(TLV.decode_bytes, bytes(data))
+    for name, fn in (("decode_bytes", TLV.decode_bytes), ("decode_bytearray", TLV.decode_bytearray)):
+        buf = bytearray(data)
+        first = run(fn, buf)
+        if bytes(buf) != bytes(data):
+            out.append((f"{name}:modifies-the-callers-buffer", {"data": bytes(data)[:64], "left": bytes(buf)[:64], "label": label}))
+        second = run(fn, buf)
+        if first != base or second != base:
+            out.append((f"{name}:result-depends-on-argument-type-or-repetition", {"data": bytes(data)[:64], "label": label, "bytes_result": repr(base)[:120], "first": repr(first)[:120], "second": repr(second)[:120]}))
+    return out
+
+
 # ---------------------------------------------------------------- cases
 def case_roundtrip(params):
     TLV, TlvParseException = _tlv()
@@ -80,6 +106,7 @@ def case_roundtrip(params):
             out.append(("roundtrip:zero-length-value-lost" if zero else "roundtrip:differs", {"spec": spec, "got": [(t, len(v)) for t, v in dec]}))
     except Exception as e:  # noqa: BLE001
         out.append((f"roundtrip-raises:{type(e).__name__}", {"spec": spec}))
+    out += _alias_check(TLV, TlvParseException, want, "roundtrip")
     return out
 
 
@@ -105,6 +132,7 @@ def case_filter(params):
     used = {t for t, _ in full}
     if used <= set(expected) and got != full:
         out.append(("filter:all-expected-but-differs", {"spec": spec, "expected": expected}))
+    out += _alias_check(TLV, TlvParseException, data, "filter", expected)
     return out
 
 
@@ -132,6 +160,7 @@ def _judge_bytes(data, TLV, TlvParseException, label):
             # ill-formed: parse error, or exactly the items of the well-formed prefix; never a short value
             if exc is None and ref.merge(got) != ref.merge(raw):
                 out.append((f"{name}:truncated-input-yields-short-or-wrong-value", {"data": data, "got": got, "label": label}))
+    out += _alias_check(TLV, TlvParseException, data, label)
     return out
 
 
@@ -224,8 +253,27 @@ def case_blefrag(params):
         pieces = [ref.encode([(12, p)]) for p in parts[:-1]] + [ref.encode([(13, parts[-1])])]
     gatt = _FakeGatt(pieces)
     request = [(6, bytearray(b"\x01")), (0, bytearray(b"\x01"))]
+    via = params.get("via")
     try:
-        res = _drive(_pairing_char_write(gatt, _Handle(), 10, request))
+        if via:
+            # through the driver every real pairing exchange uses, with a state machine that names the types it expects like the real ones do
+            from aiohomekit.controller.ble.client import drive_pairing_state_machine
+
+            expected = {"all": sorted({t for t, _ in items}), "state-only": [6], "none": []}[via]
+
+            def machine():
+                return (yield request, expected)
+
+            async def get_characteristic(*a, **k):
+                return _Handle()
+
+            async def get_characteristic_iid(h):
+                return 10
+
+            gatt.get_characteristic, gatt.get_characteristic_iid = get_characteristic, get_characteristic_iid
+            res = _drive(drive_pairing_state_machine(gatt, "0000004C-0000-1000-8000-0026BB765291", machine()))
+        else:
+            res = _drive(_pairing_char_write(gatt, _Handle(), 10, request))
     except core.HarnessError:
         raise
     except Exception as e:  # noqa: BLE001
@@ -234,7 +282,7 @@ def case_blefrag(params):
     got = {int(k): bytes(v) for k, v in res.items()}
     out = []
     if got != want:
-        out.append(("blefrag:reassembly-differs", {"spec": spec, "cuts": params["cuts"], "got": {k: len(v) for k, v in got.items()}}))
+        out.append(("blefrag:reassembly-differs" + (":via-pairing-driver" if via else ""), {"spec": spec, "cuts": params["cuts"], "via": via, "got": {k: len(v) for k, v in got.items()}}))
     if gatt.pieces:
         out.append(("blefrag:stopped-before-last-fragment", {"spec": spec, "cuts": params["cuts"]}))
     if bytes(gatt.bodies[0]) != ref.encode(request):
@@ -334,6 +382,13 @@ def run(ctx):
             for cuts in itertools.combinations(range(1, n), k):
                 if k < 2 or (cuts[0] % 3 == 0):
                     bl.append({"spec": s, "cuts": list(cuts), "empty_last": True})
+    for s in bspecs:
+        n = len(ref.encode(_mk_list(s)))
+        for via in ("all", "state-only", "none"):
+            bl.append({"spec": s, "cuts": [], "plain": True, "via": via})
+            for k in range(0, 3):
+                for cuts in itertools.combinations(range(1, n, 1 if not quick else 3), k):
+                    bl.append({"spec": s, "cuts": list(cuts), "via": via})
     long = [(6, 1), (3, 384), (5, 300)]
     n = len(ref.encode(_mk_list(long)))
     for c in range(1, n, 1 if not quick else 5):
